@@ -203,7 +203,8 @@ func (h *hist) after(e *env, term string, entry any) {
 	cnt := h.mp.CountTx()
 	h.terms = append(h.terms, emit.Pair(term, emit.ZI(int64(cnt))))
 	h.log = append(h.log, entry)
-	if h.premise && cnt != len(h.pend) {
+	// for every history (theorem count_and_capacity): a duplicate insert replaces, it does not add
+	if cnt != len(h.pend) {
 		e.run.Violate("C19:count-differs-from-pending", fmt.Sprintf("CountTx()=%d but %d transactions are pending", cnt, len(h.pend)),
 			map[string]any{"history": h.log})
 	}
@@ -259,7 +260,7 @@ func (h *hist) remove(e *env, s int, n uint64) {
 	tx := e.mkTx(s, n)
 	err := h.mp.Remove(tx)
 	_, was := h.pend[sn{s, n}]
-	if h.premise && (err == nil) != was {
+	if (err == nil) != was { // every history: Remove is keyed by (first signer, sequence)
 		e.run.Violate("C19:remove-outcome", fmt.Sprintf("Remove(sender %d, nonce %d) err=%v but pending=%v", s, n, err, was), map[string]any{"history": h.log})
 	}
 	if err == nil {
@@ -312,6 +313,18 @@ func (h *hist) selectOp(e *env) {
 		e.run.Count("select", "panicked")
 	}
 	entry := map[string]any{"op": "select", "out": fmt.Sprint(ids), "panicked": panicked}
+	if !h.premise && !panicked {
+		// outside the premise (theorem select_sound_any_history): nothing twice, nothing that is not pending, sequence order
+		ids2 := make([]sn, len(out))
+		prio := map[sn]int64{}
+		for i, t := range out {
+			ids2[i] = sn{t.sender, t.seq}
+		}
+		for k, p := range h.pend {
+			prio[k] = p.prio
+		}
+		oracleSN(e, ids2, prio, map[string]any{"history": append(append([]any{}, h.log...), entry)}, false)
+	}
 	if h.premise {
 		h.oracle(e, out, panicked, entry)
 		if h.lastSel != "" && h.lastSel != fmt.Sprint(ids)+" " {
@@ -342,11 +355,12 @@ func (h *hist) oracle(e *env, out []*testTx, panicked bool, entry any) {
 	for k, p := range h.pend {
 		prio[k] = p.prio
 	}
-	oracleSN(e, ids, prio, replay)
+	oracleSN(e, ids, prio, replay, true)
 }
 
-// out: the yielded (sender, nonce) sequence; pend: the pending set with the priority of each transaction
-func oracleSN(e *env, out []sn, pend map[sn]int64, replay any) {
+// out: the yielded (sender, nonce) sequence; pend: the pending set with the priority of each transaction;
+// complete: inside the premise (every pending transaction must be yielded, priority dominance)
+func oracleSN(e *env, out []sn, pend map[sn]int64, replay any, complete bool) {
 	seen := map[sn]int{}
 	lastNonce := map[int]uint64{}
 	hasLast := map[int]bool{}
@@ -365,6 +379,9 @@ func oracleSN(e *env, out []sn, pend map[sn]int64, replay any) {
 			return
 		}
 		hasLast[k.s], lastNonce[k.s] = true, k.n
+	}
+	if !complete {
+		return
 	}
 	if len(out) != len(pend) {
 		e.run.Violate("C19:pending-not-yielded", fmt.Sprintf("Select yielded %d of %d pending transactions", len(out), len(pend)), replay)
@@ -581,6 +598,7 @@ func TestCorr(t *testing.T) {
 	e := newEnv(run)
 	e.classSweep()
 	e.replayCorpus(t)
+	e.appWitnesses()
 	for i := 0; i < run.N; i++ {
 		e.genHistory(run.Rng.Intn(100) < 15)
 		if i%3 == 0 {
